@@ -44,10 +44,18 @@ func c17(p Params) func() {
 		ki := vsched.Choose(len(keys), "keys")
 		lens := []int{0, 1, 15, 16, 17, 100}
 		n := lens[vsched.Choose(len(lens), "len")]
+		// a handler may report success either as a nil status or as an explicit status with the OK code
+		explicitOK := vsched.Choose(2, "okstatus") == 1
+		okStatus := func() *erpc.Status {
+			if explicitOK {
+				return erpc.NewStatus(erpc.CodeOK, "", nil)
+			}
+			return nil
+		}
 		sameKey := keys[ki][0] == keys[ki][1]
 		arg := entropy(n, 7)
 		result := entropy(n, 99)
-		ctxt := fmt.Sprintf("kind=%s secure=%q accept=%q keys=%d len=%d codec=%s", kind, sec, acc, ki, n, codecName)
+		ctxt := fmt.Sprintf("kind=%s secure=%q accept=%q keys=%d len=%d codec=%s explicitOK=%v", kind, sec, acc, ki, n, codecName, explicitOK)
 
 		run := func(withPlugin bool) (handlerArgs []string, st *erpc.Status, res string, c2s, s2c []byte) {
 			var sp, cp []erpc.Plugin
@@ -59,11 +67,11 @@ func c17(p Params) func() {
 			hc := srv.RouteCallFunc(func(ctx erpc.CallCtx, a *string) (*string, *erpc.Status) {
 				handlerArgs = append(handlerArgs, *a)
 				r := result
-				return &r, nil
+				return &r, okStatus()
 			})
 			hp := srv.RoutePushFunc(func(ctx erpc.PushCtx, a *string) *erpc.Status {
 				handlerArgs = append(handlerArgs, *a)
-				return nil
+				return okStatus()
 			})
 			cli := world.NewPeer(codecName, cp...)
 			cs, _, link := world.Connect(cli, srv, nil)
